@@ -70,6 +70,11 @@ pub fn run(ctx: &mut Ctx) {
     } else {
         pols.extend(three);
     }
+    // a few policies with more than 16 shares under one identifier (up to 16 members per group, several groups)
+    for big in [(2usize, vec![(9usize, 9usize), (9, 9)]), (3, vec![(6, 6), (6, 6), (6, 6)]), (2, vec![(16, 16), (2, 2)]), (1, vec![(16, 16)]), (2, vec![(2, 16), (3, 16)]), (2, vec![(5, 10), (1, 1), (7, 8)])] {
+        let at = (pols.len() / 7).max(1) * (1 + big.1.len() + big.0) % pols.len().max(1);
+        pols.insert(at, big);
+    }
     let total = pols.len() as u64;
     ctx.count_n("policies_total", if ctx.shard == 0 { total } else { 0 });
     for case in ctx.cases(total) {
@@ -146,8 +151,31 @@ pub fn run(ctx: &mut Ctx) {
         // ALL subsets of all shares (exhaustive)
         let flat: Vec<(usize, usize)> = shares.iter().enumerate().flat_map(|(g, grp)| (0..grp.len()).map(move |m| (g, m))).collect();
         let n = flat.len();
-        ctx.count("exhaustive_subset_policies");
-        for mask in 0u32..(1u32 << n) {
+        let masks: Vec<u64> = if n <= 12 {
+            ctx.count("exhaustive_subset_policies");
+            (0u64..(1u64 << n)).collect()
+        } else {
+            // large policies (more than 12 shares): the full set, the full set minus one share, and random dense
+            // and sparse subsets
+            ctx.count("large_policies_sampled_subsets");
+            let full = if n >= 64 { u64::MAX } else { (1u64 << n) - 1 };
+            let mut v = vec![full];
+            for i in 0..n.min(8) {
+                v.push(full & !(1u64 << ((i * 5) % n)));
+            }
+            for k in 0..120 {
+                let mut m = rng.next_u64() & full;
+                if k % 3 != 0 {
+                    m |= rng.next_u64() & full; // denser
+                }
+                if k % 5 == 0 {
+                    m |= rng.next_u64() & full;
+                }
+                v.push(m);
+            }
+            v
+        };
+        for mask in masks {
             let mut chosen: Vec<Vec<bool>> = groups.iter().map(|(_, c)| vec![false; *c]).collect();
             let mut subset: Vec<&Envelope> = Vec::new();
             for (i, (g, m)) in flat.iter().enumerate() {
@@ -163,7 +191,7 @@ pub fn run(ctx: &mut Ctx) {
             let want = !subset.is_empty() && quorum(gt, &groups, &chosen);
             ctx.eval();
             ctx.count(if want { "joins_quorum" } else { "joins_no_quorum" });
-            let replay = || J::obj(vec![("policy", J::s(pol.clone())), ("subset_mask", J::i(mask)), ("original_hex", jhex(&orig))]);
+            let replay = || J::obj(vec![("policy", J::s(pol.clone())), ("subset_mask", J::s(format!("{:x}", mask))), ("original_hex", jhex(&orig))]);
             match trap::guard(|| Envelope::sskr_join(&subset)) {
                 Err(p) => ctx.violation(&format!("join-panic/{}", p.signature()), &format!("{:?}", p), replay()),
                 Ok(Ok(x)) => {
@@ -295,6 +323,28 @@ pub fn run(ctx: &mut Ctx) {
                                 ctx.violation("mixed/quorum-rejected", &format!("policy {}: the first share's split has a quorum among the mixed shares but join failed", pol), J::s(pol.clone()));
                             }
                         }
+                    }
+                }
+            }
+        }
+        // the same envelope split THREE times (same content key, three identifiers): one share of the first split
+        // comes first, then a complete set of the second, then one share of the third - a quorum is present
+        {
+            let r = trap::guard(|| (enc.sskr_split(&spec, &key), enc.sskr_split(&spec, &key)));
+            if let Ok((Ok(sy), Ok(sz))) = r {
+                let ids = [share_id(&shares[0][0]), share_id(&sy[0][0]), share_id(&sz[0][0])];
+                if ids[0] != ids[1] && ids[1] != ids[2] && ids[0] != ids[2] {
+                    ctx.eval();
+                    ctx.count("three_split_joins");
+                    let mut subset: Vec<&Envelope> = vec![&shares[0][0]];
+                    subset.extend(sy.iter().flatten());
+                    subset.push(&sz[0][0]);
+                    // quorum of the first split alone? then the answer is Ok anyway; otherwise it rests on the second
+                    match trap::guard(|| Envelope::sskr_join(&subset)) {
+                        Ok(Ok(x)) if x.is_identical_to(&wrapped) => {}
+                        Ok(Ok(_)) => ctx.violation("three-splits/wrong-envelope", "join returned another envelope", J::s(pol.clone())),
+                        Ok(Err(err)) => ctx.violation("three-splits/quorum-rejected", &format!("policy {}: shares of three splits of the same envelope, the second one complete, but join failed: {}", pol, err), J::s(pol.clone())),
+                        Err(p) => ctx.violation(&format!("three-splits/panic/{}", p.signature()), &format!("{:?}", p), J::s(pol.clone())),
                     }
                 }
             }
